@@ -96,6 +96,35 @@ def check_negra(mtj, order=None):
         if got != [exp]:
             bad('wrong-head', 'children of %s with edges %r: head index %r, expected %d'
                 % (x.data['label'], [c.data['edge'] for c in ks], got, exp))
+    if order is None and not out:
+        # the marking as the user sees it: discobrackets output with `gf mark_heads_marking` (LABEL-GF')
+        import io
+        import copy
+        from trees import treeoutput
+        from .. import codecs
+        try:
+            stream = io.StringIO()
+            wopts = cli_options({'gf': True, 'mark_heads_marking': True})
+            treeoutput.discobrackets(copy.deepcopy(r), stream, **wopts)
+            groot = codecs.decode_discobrackets(stream.getvalue())[0][0]
+
+            def expect(nd, is_head):
+                if isinstance(nd, int):
+                    return nd
+                ks = sorted(nd[2], key=lambda k: k if isinstance(k, int) else model.leaves(k)[0])
+                edges = [mt.toks[k - 1]['edge'] if isinstance(k, int) else k[1] for k in ks]
+                h = refs.negra_head_index(edges)
+                lab = nd[0] + ('-' + nd[1] if nd[1] and not nd[1].startswith('-') else '') + ("'" if is_head else '')
+                return (lab, None, tuple(expect(k, i == h) for i, k in enumerate(ks)))
+
+            def strip(nd):
+                return nd if isinstance(nd, int) else (nd[0], None, tuple(strip(k) for k in model.canon_mt(nd)[2]))
+            want = strip(expect(mt.root, False))
+            if strip(groot) != want:
+                bad('written-marking', 'discobrackets output with gf + mark_heads_marking shows %s, expected %s'
+                    % (model.mt_str(strip(groot)), model.mt_str(want)))
+        except Exception as e:
+            bad('exception', 'writing with gf + mark_heads_marking: %s: %s' % (type(e).__name__, e))
     return out, nontriv
 
 
